@@ -83,7 +83,7 @@ fn main() {
             if args.len() < 4 {
                 usage();
             }
-            hook::ensure_installed();
+            hook::warm_up();
             let check = args[2].clone();
             let runs: u64 = args[3].parse().unwrap();
             let tier = if args.get(4).map(|s| s.as_str()) == Some("thorough") { Tier::Thorough } else { Tier::Quick };
@@ -130,6 +130,30 @@ fn main() {
             println!("  first failing cases: {:?}", f.iter().take(8).collect::<Vec<_>>());
             0
         }
+        "statecase" => {
+            // sim statecase <idx> [tier]: one case of the C10 state-readers component, three ways
+            hook::warm_up();
+            let idx: u64 = args[2].parse().unwrap();
+            let tier = if args.get(3).map(|s| s.as_str()) == Some("thorough") { Tier::Thorough } else { Tier::Quick };
+            if std::env::var_os("PIPE").is_some() {
+                for round in 0..3 {
+                    let plan = checks::plan_pipeline_case("C01", tier, seed_from_env(), idx);
+                    let out = checks::evaluate_case("C01", &plan.scenario, &plan.sched, None, &plan.want);
+                    println!("pipeline run {round}: hash={:016x} decisions={}", out.stats.trace_hash, out.stats.decisions);
+                }
+                return;
+            }
+            let p = statecomp::plan(seed_from_env(), idx, tier);
+            for round in 0..2 {
+                let out = statecomp::run_case(&p, None, true);
+                println!("run {round}: hash={:016x} decisions={} findings={:?}", out.stats.trace_hash, out.stats.decisions, out.findings.iter().map(|f| f.class.clone()).collect::<Vec<_>>());
+                if let Some(t) = out.trace {
+                    let again = statecomp::run_case(&p, Some(t.clone()), false);
+                    println!("  replay of its trace ({} decisions): hash={:016x} decisions={} findings={:?}", t.tasks.len(), again.stats.trace_hash, again.stats.decisions, again.findings.iter().map(|f| f.class.clone()).collect::<Vec<_>>());
+                }
+            }
+            0
+        }
         "case" | "gen" => {
             if args.len() < 5 {
                 usage();
@@ -142,7 +166,7 @@ fn main() {
                 println!("{}", plan.sched.to_json());
                 0
             } else {
-                hook::ensure_installed();
+                hook::warm_up();
                 let out = checks::evaluate_case(&args[2], &plan.scenario, &plan.sched, None, &plan.want);
                 println!("group={} summary={}", plan.group, out.summary);
                 println!("stats: decisions={} steps={} probes={:?}", out.stats.decisions, out.stats.steps, out.stats.probes);
